@@ -6,6 +6,8 @@ observed, never timed."""
 import sys
 import threading
 
+NDICTS = 0        # set by the check: number of dictionaries default_initialization registers
+OPAQUE = False
 FUNCS = ('get_default_instance', 'default_initialization', 'clear', 'set_SQL_REGEX', 'add_keywords',
          'tokenize', 'get_tokens')
 TEXT = 'select a, b from t where x = 1; insert into t values (1)'
@@ -84,7 +86,14 @@ class Sched:
             d['hasRegex'] = r is not None
             d['hasKw'] = k is not None
             d['regexSet'] = bool(r)
-            d['nDicts'] = len(k) if k is not None else 0
+            if isinstance(k, (list, tuple)):
+                d['nDicts'] = len(k)
+            else:
+                # another representation of the registered dictionaries than the list this projection knows:
+                # completeness cannot be read off the state; only the threads' results are judged (reported as drift)
+                global OPAQUE
+                OPAQUE = True
+                d['nDicts'] = NDICTS if k else 0
         return d
 
     # ---- worker side ---------------------------------------------------------
